@@ -236,4 +236,4 @@ class IndexMachine(HistoryMachine):
 
 
 def parts(tier):
-    return [MachinePart('fetch-history', IndexMachine, engine.replay_machine_case(start, step), 500, 12000, steps=40)]
+    return [MachinePart('fetch-history', IndexMachine, engine.replay_machine_case(start, step), 1600, 24000, steps=40)]
